@@ -16,6 +16,38 @@ def is_sym(v):
     return isinstance(v, (z3.ExprRef, XR))
 
 
+# ---- IEEE float32 cells (used where rounding is the subject, e.g. the SpecAugment draws) ----
+FP32 = z3.Float32()
+FP_INT_RANGE = 96  # fp -> int truncation is encoded by threshold counting for 0 <= x < FP_INT_RANGE (model obligation)
+FP_OBLIGATIONS = []
+
+
+def is_fp(v):
+    return isinstance(v, z3.FPRef)
+
+
+def anyfp(*vs):
+    return any(isinstance(v, z3.FPRef) for v in vs)
+
+
+def to_fp(v):
+    if isinstance(v, z3.FPRef):
+        return v
+    if isinstance(v, XR) or (is_z3(v) and not z3.is_bool(v)):
+        raise ValueError("symbolic non-FP operand in float32 arithmetic (concretise it first)")
+    if is_z3(v):
+        return z3.If(v, z3.FPVal(1.0, FP32), z3.FPVal(0.0, FP32))
+    import struct
+    f = struct.unpack("f", struct.pack("f", float(v)))[0]  # round to nearest float32, as torch does with python scalars
+    return z3.FPVal(f, FP32)
+
+
+def fp_trunc_to_int(x):
+    """(long) x for 0 <= x < FP_INT_RANGE as an Int term: number of integers k >= 1 with x >= k"""
+    FP_OBLIGATIONS.append(z3.And(z3.fpGEQ(x, z3.FPVal(0.0, FP32)), z3.fpLT(x, z3.FPVal(float(FP_INT_RANGE), FP32)), z3.Not(z3.fpIsNaN(x))))
+    return z3.Sum([z3.If(z3.fpGEQ(x, z3.FPVal(float(k), FP32)), 1, 0) for k in range(1, FP_INT_RANGE)])
+
+
 def is_z3(v):
     return isinstance(v, z3.ExprRef)
 
@@ -165,6 +197,8 @@ MUL_UF = None  # optionally an uninterpreted commutative product (set by a harne
 
 
 def s_neg(a):
+    if is_fp(a):
+        return z3.fpNeg(a)
     if isinstance(a, XR):
         return XR(a.ninf, s_neg(a.val), a.pinf, a.nan)
     if not is_sym(a):
@@ -173,6 +207,8 @@ def s_neg(a):
 
 
 def s_add(a, b):
+    if anyfp(a, b):
+        return z3.fpAdd(z3.RNE(), to_fp(a), to_fp(b))
     if anyxr(a, b):
         a, b = xr(a), xr(b)
         nan = s_or(s_or(a.nan, b.nan), s_or(s_and(a.pinf, b.ninf), s_and(a.ninf, b.pinf)))
@@ -195,6 +231,8 @@ def s_add(a, b):
 
 
 def s_sub(a, b):
+    if anyfp(a, b):
+        return z3.fpSub(z3.RNE(), to_fp(a), to_fp(b))
     if anyxr(a, b):
         return s_add(a, s_neg(xr(b)))
     if not is_sym(a) and not is_sym(b):
@@ -206,6 +244,8 @@ def s_sub(a, b):
 
 
 def s_mul(a, b):
+    if anyfp(a, b):
+        return z3.fpMul(z3.RNE(), to_fp(a), to_fp(b))
     if anyxr(a, b):
         a, b = xr(a), xr(b)
         ainf = s_or(a.pinf, a.ninf)
@@ -256,6 +296,8 @@ INT_DIV_RANGE = (-16, 16)
 
 def s_div(a, b, obligations=None):
     """true division (float result) with IEEE semantics for a zero divisor"""
+    if anyfp(a, b):
+        return z3.fpDiv(z3.RNE(), to_fp(a), to_fp(b))
     if anyxr(a, b):
         a, b = xr(a), xr(b)
         # a / b = a * (1/b); 1/inf = 0
@@ -348,6 +390,8 @@ def s_mod(a, b):
 
 
 def s_floor(a):
+    if is_fp(a):
+        return z3.fpRoundToIntegral(z3.RTN(), a)
     if isinstance(a, XR):
         return XR(a.pinf, s_floor(a.val), a.ninf, a.nan)
     if not is_sym(a):
@@ -358,6 +402,8 @@ def s_floor(a):
 
 
 def s_trunc(a):
+    if is_fp(a):
+        return z3.fpRoundToIntegral(z3.RTZ(), a)
     if isinstance(a, XR):
         return XR(a.pinf, s_trunc(a.val), a.ninf, a.nan)
     if not is_sym(a):
@@ -368,6 +414,8 @@ def s_trunc(a):
 
 
 def s_abs(a):
+    if is_fp(a):
+        return z3.fpAbs(a)
     if isinstance(a, XR):
         return XR(s_or(a.pinf, a.ninf), s_abs(a.val), False, a.nan)
     if not is_sym(a):
@@ -377,6 +425,9 @@ def s_abs(a):
 
 
 def s_cmp(op, a, b):
+    if anyfp(a, b):
+        x, y = to_fp(a), to_fp(b)
+        return {"lt": z3.fpLT, "le": z3.fpLEQ, "gt": z3.fpGT, "ge": z3.fpGEQ, "eq": z3.fpEQ, "ne": lambda p, q: z3.Not(z3.fpEQ(p, q))}[op](x, y)
     if anyxr(a, b):
         a, b = xr(a), xr(b)
         fin = s_and(a.fin(), b.fin())
@@ -418,6 +469,8 @@ def s_cmp(op, a, b):
 
 
 def s_bool(v):
+    if is_fp(v):
+        return z3.Not(z3.fpIsZero(v))
     if isinstance(v, XR):
         # nonzero (nan and inf are truthy)
         return s_not(v.zero())
@@ -480,6 +533,8 @@ def s_ite(c, a, b):
     c = s_bool(c)
     if not is_sym(c):
         return a if c else b
+    if anyfp(a, b):
+        return z3.If(c, to_fp(a), to_fp(b))
     if not is_sym(a) and not is_sym(b) and type(a) == type(b) and (a == b):
         return a
     abool = (is_z3(a) and z3.is_bool(a)) or isinstance(a, bool)
@@ -502,6 +557,8 @@ def s_ite(c, a, b):
 
 def s_min(a, b):
     """torch.minimum semantics (nan propagates)"""
+    if anyfp(a, b):
+        return z3.fpMin(to_fp(a), to_fp(b))
     if anyxr(a, b):
         a, b = xr(a), xr(b)
         r = s_ite(s_cmp("le", a, b), a, b)
@@ -514,6 +571,8 @@ def s_min(a, b):
 
 
 def s_max(a, b):
+    if anyfp(a, b):
+        return z3.fpMax(to_fp(a), to_fp(b))
     if anyxr(a, b):
         a, b = xr(a), xr(b)
         r = s_ite(s_cmp("ge", a, b), a, b)
@@ -527,6 +586,9 @@ def s_max(a, b):
 
 def s_eq_total(a, b):
     """bitwise-style equality used by oracles: nan == nan, inf == inf"""
+    if anyfp(a, b):
+        x, y = to_fp(a), to_fp(b)
+        return z3.Or(z3.fpEQ(x, y), z3.And(z3.fpIsNaN(x), z3.fpIsNaN(y)))
     if anyxr(a, b) or isinstance(a, XR) or isinstance(b, XR):
         a, b = xr(a), xr(b)
         return s_or(
@@ -545,6 +607,16 @@ def as_z3_bool(v):
 
 def eval_cell(model, v):
     """evaluate a cell under a z3 model to a python value"""
+    if is_fp(v):
+        r = model.eval(v, model_completion=True)
+        if z3.is_fp_value(r) if hasattr(z3, "is_fp_value") else isinstance(r, z3.FPNumRef):
+            if r.isNaN():
+                return math.nan
+            if r.isInf():
+                return -math.inf if r.isNegative() else math.inf
+            q = z3.simplify(z3.fpToReal(r))
+            return float(q.as_fraction())
+        raise ValueError("cannot evaluate fp cell")
     if isinstance(v, XR):
         if _ev_bool(model, v.nan):
             return math.nan
